@@ -87,6 +87,17 @@ static Hdr *arena_block(size_t total) {
     UNPOISON(h, total);
     return h;
 }
+// Under ASan the guard bands (and the slack between the requested size and the block's capacity) are poisoned while a block is live: the
+// code under test must not even READ past what it asked for. The allocator opens them around its own checks. Bytes lent to the harness
+// as a neighbouring object (lend_tail) stay accessible; huge and whole-page blocks have no guards.
+static inline void guards_open(Hdr *h) { if (!(h->flags & (4 | 16))) UNPOISON(user_of(h) - GUARD, GUARD + h->cap + GUARD); }
+static inline void guards_close(Hdr *h) {
+    if (h->flags & (4 | 16)) return;
+    uint8_t *u = user_of(h);
+    const size_t lent = (size_t)((h->flags >> 8) & 0xFF);
+    POISON(u - GUARD, GUARD);
+    if (h->size + lent < h->cap + GUARD) POISON(u + h->size + lent, h->cap + GUARD - h->size - lent);
+}
 static bool in_arena(const void *p) { return g_arena && (const uint8_t *)p >= g_arena && (const uint8_t *)p < g_arena + ARENA_SIZE; }
 
 static size_t class_of(size_t n) { return (n + 15) & ~(size_t)15; }
@@ -97,6 +108,7 @@ static void check_block(Hdr *h, const char *where) {
                        (unsigned long long)h->magic);
     uint8_t *u = user_of(h);
     if (h->flags & 16) return; // no guard bands around a page that is handed out whole
+    guards_open(h);
     for (size_t i = 0; i < GUARD; i++)
         if (u[-(ptrdiff_t)GUARD + (ptrdiff_t)i] != GUARD_BYTE)
             sim::violation("alloc:underrun", "%s: block #%llu (size %zu, allocated at event %llu): byte %zd before the block was overwritten",
@@ -106,6 +118,7 @@ static void check_block(Hdr *h, const char *where) {
         if (u[i] != GUARD_BYTE)
             sim::violation("alloc:overrun", "%s: block #%llu (size %zu, allocated at event %llu): byte at offset %zu (past the end) was overwritten",
                            where, (unsigned long long)h->id, h->size, (unsigned long long)h->alloc_seq, i);
+    guards_close(h);
 }
 
 static const size_t HUGE = (size_t)1 << 30; // blocks this large are address space only: mapped without backing, never filled or scanned
@@ -185,6 +198,7 @@ static void *do_acquire(size_t size) {
     memset(u + size, GUARD_BYTE, cap - size + GUARD);
     S.live[u] = h;
     S.total++;
+    guards_close(h);
     return u;
 }
 
@@ -198,6 +212,7 @@ static void do_release(void *p, bool internal = false) {
     }
     Hdr *h = it->second;
     check_block(h, "release");
+    guards_open(h);
     uint8_t *u = user_of(h);
     if (!internal && !(h->flags & 4) && ((h->flags & 1) || S.require_zero_all)) {
         S.zero_checked++;
@@ -259,10 +274,12 @@ static void *vt_realloc(struct aws_allocator *, void *old, size_t oldsize, size_
     }
     if (newsize <= h->cap && !((h->flags >> 8) & 0xFF) && !S.rng.chance(S.cfg.p_move)) {
         // stays in place
+        guards_open(h);
         uint8_t *u = user_of(h);
         if (newsize > h->size) memset(u + h->size, S.junk, newsize - h->size);
         else memset(u + newsize, GUARD_BYTE, h->size - newsize);
         h->size = newsize;
+        guards_close(h);
         return old;
     }
     size_t keep = h->size < newsize ? h->size : newsize;
@@ -349,6 +366,8 @@ uint8_t *lend_tail(const void *p, size_t n) {
     Hdr *h = it->second;
     if ((h->flags & 4) || n > 255 || h->size + n > h->cap + GUARD) return nullptr;
     h->flags = (h->flags & ~(uint64_t)0xFF00) | ((uint64_t)n << 8);
+    guards_open(h);
+    guards_close(h); // the lent bytes stay accessible
     return user_of(h) + h->size;
 }
 void expect_zero_on_release(const void *p) {
